@@ -79,7 +79,7 @@ def scales(rnd, n):
     out = []
     for _ in range(n):
         r = rnd.random()
-        if out and r < 0.18:
+        if out and r < (0.18 if n < 20 else 0.4):
             out.append(rnd.choice(out))          # tie with another unit
         elif r < 0.25:
             out.append(F(1))                     # tie with the reference unit
@@ -135,8 +135,8 @@ def make_definition(rnd, name, kind):
             us.append(UnitSpec(i, s, None, None))
             attrs.append('#[unit(%s, "%s"%s)]' % (i, s, ', "doc of %s"' % i if rnd.random() < 0.4 else ""))
         return Definition(name, QtySpec("crate", "corpus::" + name.lower(), name, None, us), attrs, "quantity without reference unit " + name)
-    # with reference unit
-    n = rnd.randint(1, 8)
+    # with reference unit ("big": more than 20 units, so that an unstable sort would show; many ties, declared unsorted)
+    n = rnd.randint(1, 8) if kind != "big" else rnd.randint(21, 25)
     ref_i = ident(rnd, used_id)
     ref_s = symbol(rnd, used_sym)
     si = rnd.random() < 0.6
@@ -166,6 +166,7 @@ def corpus(seed, k):
     for j in range(k):
         kind = kinds[j % len(kinds)] if j >= 3 else ["ref", "noref", "single"][j] if k >= 3 else "ref"
         defs.append(make_definition(rnd, "Syn%d" % j, kind))
+    defs.append(make_definition(rnd, "SynBig", "big"))
     twins = []
     for d in defs:
         order = list(range(len(d.attrs)))
